@@ -110,7 +110,7 @@ def run(ctx):
     nlog = [0]
     ncompose = 0
     for i in range(60 if ctx.quick else 1200):
-        w, dump = gen_dump(rnd)
+        w, dump = gen_dump(rnd, allow_zero_tid=(i % 4 != 0))
         if i % (6 if ctx.quick else 3) == 0:
             for api in ('formatted_kevents', 'formatted_traces', 'formatted_callstacks'):
                 ncompose += check_compose(ctx, api, dump, w, ctx.quick)
